@@ -5,6 +5,14 @@ Open Scope Z_scope.
 Check C16_matches_kernel : forall (st : pstate) (s : Z), known s = true -> emulate st s = kernel_default s.
 Check C16_unknown_is_error : forall (st : pstate) (s : Z), known s = false -> emulate st s = Error.
 Check C16_names_are_platform_names : forall (s : Z) (nm : string), signal_name s = Some nm -> In (nm, s) platform_signals.
+Check C16_total : forall (st : pstate) (s : Z), emulate st s = if known s then kernel_default s else Error.
+Check C16_context_independent : forall (st st' : pstate) (s : Z), emulate st s = emulate st' s.
+Check C16_never_handler_nor_exit : forall (st : pstate) (s : Z), emulate st s <> HandlerRuns /\ emulate st s <> Exits.
+Check C16_terminated_by_itself : forall (st : pstate) (s t : Z), emulate st s = TerminatedBy t -> t = s.
 Print Assumptions C16_matches_kernel.
 Print Assumptions C16_unknown_is_error.
 Print Assumptions C16_names_are_platform_names.
+Print Assumptions C16_total.
+Print Assumptions C16_context_independent.
+Print Assumptions C16_never_handler_nor_exit.
+Print Assumptions C16_terminated_by_itself.
